@@ -86,6 +86,11 @@ UNITS = {
   'route_broadcast': dict(wrapper='w_route.cpp', mode='seq', cxxflags=['-DROUTE=0'], looporder=True, cut=['prioritize_task'], prune=True, inline_threshold=300, m1ptr=True),
   'route_split': dict(wrapper='w_route.cpp', mode='seq', cxxflags=['-DROUTE=1'], looporder=True, cut=['prioritize_task'], prune=True, inline_threshold=300, m1ptr=True),
   'route_indexer': dict(wrapper='w_route.cpp', mode='seq', cxxflags=['-DROUTE=2'], looporder=True, cut=['prioritize_task'], prune=True, inline_threshold=300, m1ptr=True),
+  'ow_thr2': dict(wrapper='w_ow_thr.cpp', mode='lcs', unroll=2, cxxflags=['-DWO=0'], devirt=['vp_recvt'], threads={'vp_thr_put': ['a', 'b']}),
+  'ow_thr3': dict(wrapper='w_ow_thr.cpp', mode='lcs', unroll=2, cxxflags=['-DWO=0'], devirt=['vp_recvt'], threads={'vp_thr_put': ['a', 'b', 'c']}),
+  'wo_thr2': dict(wrapper='w_ow_thr.cpp', mode='lcs', unroll=2, cxxflags=['-DWO=1'], devirt=['vp_recvt'], threads={'vp_thr_put': ['a', 'b']}),
+  'wo_thr3': dict(wrapper='w_ow_thr.cpp', mode='lcs', unroll=2, cxxflags=['-DWO=1'], devirt=['vp_recvt'], threads={'vp_thr_put': ['a', 'b', 'c']}),
+  'lim_thr2': dict(wrapper='w_lim_thr.cpp', mode='lcs', unroll=2, devirt=['vp_recvt'], cut=['prioritize_task', 'spawn_in_graph_arena', 'try_reserve_impl', 'forward_task_bypassINS1_12limiter_node'], threads={'vp_thr_limput': ['a', 'b'], 'vp_thr_limdec': ['a', 'b']}),
   'queuenode': dict(wrapper='w_bufnode.cpp', mode='seq', cxxflags=['-DNODEKIND=1'], looporder=True, cut=['prioritize_task'], devirt=True, prune=True, inline_threshold=300, m1ptr=True),
   'itembuf': dict(wrapper='w_itembuf.cpp', mode='seq', cxxflags=[], selftest=True, looporder=True),
 }
@@ -178,6 +183,34 @@ HARNESSES = [
        scenarios=[{'ACC': a} for a in (63, 0, 21, 42)], thorough_override={'defines': {'memset': 'vp_memset', 'ROUTE': 2, 'NPUT': 4}},
        desc='indexer_node with two harness successors: a message put on input port p (symbolic choice) reaches every successor exactly once as a tagged message with tag p and the same value; try_put succeeds; no task is spawned',
        bounds={'puts': 'quick 3, thorough 4', 'successors': '2', 'accept patterns': '4 concrete', 'values': 'symbolic'}, timeout=300),
+  dict(name='write_once_node_threads', unit='wo_thr2', harness='h_ow_thr.c', cbmc=['--unwind', '12', '--object-bits', '12'], native_cflags=['-fno-sanitize=null'], defines={'memset': 'vp_memset', 'WO': 1, 'NT': 2, 'ROUNDS': 2},
+       scenarios=[{'PRE': 0}, {'PRE': 1}],
+       desc='write_once_node<int>, concurrent try_put by 2 (thorough: also 3) threads on a node holding no value (fresh / after clear()), one successor present; all interleavings of the real '
+            'try_put_task (spin_mutex critical section, value+flag update, broadcast_cache forwarding) within the slice bound; then try_get and a late successor: exactly one put accepted, successor/try_get/late successor all see that value; no putter blocked for ever, mutex free',
+       bounds={'threads': 2, 'free_rounds': 2, 'forced_rounds': 2, 'spin_unroll': 2, 'memory_model': 'SC', 'values': 'symbolic, distinct'}, timeout=900, thorough_override={'defines': {'memset': 'vp_memset', 'WO': 1, 'NT': 2, 'ROUNDS': 3}, 'timeout': 1800, 'bounds': {'threads': 2, 'free_rounds': 3, 'forced_rounds': 2, 'spin_unroll': 2, 'memory_model': 'SC', 'values': 'symbolic, distinct'}}),
+  dict(name='write_once_node_threads_3t', unit='wo_thr3', harness='h_ow_thr.c', cbmc=['--unwind', '12', '--object-bits', '12'], native_cflags=['-fno-sanitize=null'], defines={'memset': 'vp_memset', 'WO': 1, 'NT': 3, 'ROUNDS': 2},
+       scenarios=[{'PRE': 0}, {'PRE': 1}],
+       desc='write_once_node<int>, concurrent try_put by 2 (thorough: also 3) threads on a node holding no value (fresh / after clear()), one successor present; all interleavings of the real '
+            'try_put_task (spin_mutex critical section, value+flag update, broadcast_cache forwarding) within the slice bound; then try_get and a late successor: exactly one put accepted, successor/try_get/late successor all see that value; no putter blocked for ever, mutex free',
+       bounds={'threads': 3, 'free_rounds': 2, 'forced_rounds': 2, 'spin_unroll': 2, 'memory_model': 'SC', 'values': 'symbolic, distinct'}, timeout=3000, tiers=['thorough']),
+  dict(name='overwrite_node_threads', unit='ow_thr2', harness='h_ow_thr.c', cbmc=['--unwind', '12', '--object-bits', '12'], native_cflags=['-fno-sanitize=null'], defines={'memset': 'vp_memset', 'WO': 0, 'NT': 2, 'ROUNDS': 2},
+       scenarios=[{'PRE': 0}, {'PRE': 1}],
+       desc='overwrite_node<int>, concurrent try_put by 2 (thorough: also 3) threads on a node holding no value (fresh / after clear()), one successor present; all interleavings of the real '
+            'try_put_task (spin_mutex critical section, value+flag update, broadcast_cache forwarding) within the slice bound; then try_get and a late successor: all puts accepted, each value forwarded once, held value = last forwarded; no putter blocked for ever, mutex free',
+       bounds={'threads': 2, 'free_rounds': 2, 'forced_rounds': 2, 'spin_unroll': 2, 'memory_model': 'SC', 'values': 'symbolic, distinct'}, timeout=900, thorough_override={'defines': {'memset': 'vp_memset', 'WO': 0, 'NT': 2, 'ROUNDS': 3}, 'timeout': 1800, 'bounds': {'threads': 2, 'free_rounds': 3, 'forced_rounds': 2, 'spin_unroll': 2, 'memory_model': 'SC', 'values': 'symbolic, distinct'}}),
+  dict(name='overwrite_node_threads_3t', unit='ow_thr3', harness='h_ow_thr.c', cbmc=['--unwind', '12', '--object-bits', '12'], native_cflags=['-fno-sanitize=null'], defines={'memset': 'vp_memset', 'WO': 0, 'NT': 3, 'ROUNDS': 2},
+       scenarios=[{'PRE': 0}, {'PRE': 1}],
+       desc='overwrite_node<int>, concurrent try_put by 2 (thorough: also 3) threads on a node holding no value (fresh / after clear()), one successor present; all interleavings of the real '
+            'try_put_task (spin_mutex critical section, value+flag update, broadcast_cache forwarding) within the slice bound; then try_get and a late successor: all puts accepted, each value forwarded once, held value = last forwarded; no putter blocked for ever, mutex free',
+       bounds={'threads': 3, 'free_rounds': 2, 'forced_rounds': 2, 'spin_unroll': 2, 'memory_model': 'SC', 'values': 'symbolic, distinct'}, timeout=3000, tiers=['thorough']),
+  dict(name='limiter_node_threads', unit='lim_thr2', harness='h_lim_thr.c', cbmc=['--unwind', '12', '--object-bits', '12'], native_cflags=['-fno-sanitize=null'],
+       defines={'memset': 'vp_memset', 'ROUNDS': 2}, tiers=['thorough'], timeout=3000,
+       scenarios=[{'THR': 1, 'PRE': 1, 'OP0': 0, 'OP1': 1}, {'THR': 1, 'PRE': 0, 'OP0': 0, 'OP1': 0}, {'THR': 2, 'PRE': 1, 'OP0': 0, 'OP1': 0}, {'THR': 2, 'PRE': 2, 'OP0': 0, 'OP1': 1}],
+       desc='limiter_node<int,int>, 2 threads: a try_put racing a decrement at the threshold, and two try_puts racing for the last free slot (real try_put_task_impl / decrement_counter / '
+            'forward_task under my_mutex and the cache mutexes; successor accepts): forwarded - decrements started <= threshold at every forward, accepted puts <= room + decrements, '
+            'at least one racing put accepted when there is room, my_tries == 0, my_future_decrement == 0, my_count == forwarded - decrements at quiescence, nobody blocked, mutex free',
+       bounds={'threads': 2, 'free_rounds': 2, 'forced_rounds': 2, 'spin_unroll': 2, 'memory_model': 'SC', 'threshold': '1-2', 'cut': 'prioritize_task, spawn_in_graph_arena, '
+               'reservable_predecessor_cache::try_reserve_impl, forwarder task constructor (all proved unreachable in these scenarios: no predecessor)'}),
   dict(name='buffer_node', unit='bufnode', harness='h_bufnode.c', cbmc=['--unwind', '40'] + FS, defines={'KIND': 0},
        scenarios_quick=bufnode_pick(BUF_QUICK, 1, ['0', '1', '2']) + bufnode_pick(BUF_QUICK[:4], 2, ['2', '5']),
        scenarios_thorough=bufnode_scenarios(4, [1, 2], ['0', '1', '2', '5'], 2) + [dict(sc, LEN=5, FROM=6 * sc['FROM']) for sc in bufnode_scenarios(4, [1], ['0', '1', '2', '7'], 1)],
@@ -195,13 +228,13 @@ MANIFEST = dict(
              'outstanding-count bound, per-port FIFOs / reservation protocol, held-value register, routing table) checked after every step and at quiescence.',
   level_note='Operation sequences and accept patterns are enumerated concretely (quick: hand-picked; thorough: exhaustive up to 4-5 ops per node) because cbmc cannot bound the real loops '
              'or dispatch on graph_task* values when they are symbolic; the solver quantifies over message values only (and over priorities / input-port choice where stated). '
-             'The aggregator is modelled as run-handler-inline (single caller); true concurrency (several threads at the ports, decrement racing a put on another thread), key_matching joins, '
-             'joins with more than 2 ports, node priorities, try_put_and_wait metainfo, reset/cancellation are outside. limiter_node with a decrement delivered synchronously on the '
+             'The aggregator is modelled as run-handler-inline (single caller); concurrency at aggregator-based nodes and join ports, key_matching joins, '
+             'joins with more than 2 ports, node priorities, try_put_and_wait metainfo, reset/cancellation are outside (exception: concurrent try_put on overwrite_node / write_once_node and put-vs-decrement on limiter_node are checked in thread mode, 2-3 threads, bounded schedules). limiter_node with a decrement delivered synchronously on the '
              'forwarding thread while a predecessor is cached is excluded (real self-deadlock, props/C15/repro_limiter_selfdeadlock.cpp). Trusted: clang-14 IR, tools/ir2c.py '
              '(item_buffer unit validated per run by the selftest differential), cbmc.',
 )
 OUTSIDE = [
-  'several threads calling into one node at once (aggregator contention, two join ports fed concurrently, decrement racing a put from another thread): the aggregator is replaced by its uncontended behaviour',
+  'several threads calling into one aggregator-based node at once (buffer/queue/priority/sequencer nodes, join ports fed concurrently): the aggregator is replaced by its uncontended behaviour. Concurrent callers ARE covered for the spin_mutex-guarded nodes: overwrite_node / write_once_node try_put (2 threads quick, 3 thorough) and limiter_node put-vs-decrement / put-vs-put (2 threads, thorough); not covered concurrently: overwrite try_get/register_successor/clear racing a put, limiter with a cached predecessor, continue_receiver, broadcast_node / split_node / indexer_node successor caches (spin_rw_mutex)',
   'join_node with key_matching / tag_matching policy (hash buffers, key count table) and joins with more than 2 ports',
   'limiter_node: a decrement delivered synchronously on the thread that is forwarding (lightweight successor feeding the decrementer) while the limiter holds a cached predecessor and count+tries < threshold: '
   'the real code self-deadlocks on broadcast_cache\'s spin_rw_mutex (liveness defect, reproducer props/C15/repro_limiter_selfdeadlock.cpp); these scenarios are not generated',
@@ -224,7 +257,8 @@ STUBS = [
   'memset in translated code: word-wise stores (-Dmemset=vp_memset) so that cbmc keeps node members concrete',
 ]
 ASSUMPTIONS = [
-  'single caller thread; every call into a node runs to completion before the next (spawned tasks run only when the harness runs them)',
+  'sequential harnesses: single caller thread; every call into a node runs to completion before the next (spawned tasks run only when the harness runs them)',
+  'thread harnesses (*_threads): sequentially consistent memory, schedules with <= ROUNDS slices per thread + 2 forced rounds, spin loops unrolled twice then parked; the thread body calls the node\'s own try_put_task override directly (receiver::try_put = that call + spawning a returned task; none is returned)',
   'caller contract of item_buffer: release/consume only while reserved, pop_front only while not reserved, pop_back not on the reserved item',
   'message values put into one buffering node are pairwise distinct while buffered (identifies messages; equal values are indistinguishable for the contracts)',
   'limiter_node scenarios: a re-entrant decrement (successor answering inside try_put_task) is generated only while no predecessor is cached (otherwise the real code deadlocks, see OUTSIDE); deltas 0..3',
